@@ -13,6 +13,13 @@
 (* waits for it), "flush" (the original: Log.Flush() - negative control, the repaired         *)
 (* defect); StableVariant "late" (a seeded change: append without waiting, release the         *)
 (* locks, then Log.Flush()) is the second negative control.                                    *)
+(*   Whole     the durable prefix (what a crash at this instant recovers) holds every request   *)
+(*             entirely or not at all: go-nfsd appends ONE transaction per request, and the     *)
+(*             logger's prefix grows by whole transactions. StableVariant "split" (a seeded     *)
+(*             change, r18e: a large WRITE logged in pieces, all but the last unstable, in the   *)
+(*             belief that they reach the disk in one group commit) is the negative control:     *)
+(*             the logger - or the journal itself, when the in-memory log is full - makes the    *)
+(*             first piece durable alone.                                                         *)
 EXTENDS Integers, Sequences, FiniteSets, TLC
 CONSTANTS Clients, MaxTxn, CommitVariant, StableVariant
 
@@ -21,43 +28,56 @@ VARIABLES len,       \* transactions in the in-memory log
           pos,       \* the shared position field of obj.Log
           pc, my,    \* per client: what it is doing, the position it waits for (0 = the shared field, read when waiting)
           mark,      \* per client: the log length its request has to cover
-          promised   \* the largest log position some returned request promised to be stable
-vars == <<len, durable, pos, pc, my, mark, promised>>
+          promised,  \* the largest log position some returned request promised to be stable
+          owner,     \* the request every appended transaction belongs to
+          open       \* requests that have appended some of their transactions and not yet all
+vars == <<len, durable, pos, pc, my, mark, promised, owner, open>>
 
 Init == len = 0 /\ durable = 0 /\ pos = 0 /\ pc = [c \in Clients |-> "idle"] /\ my = [c \in Clients |-> 0]
-        /\ mark = [c \in Clients |-> 0] /\ promised = 0
+        /\ mark = [c \in Clients |-> 0] /\ promised = 0 /\ owner = <<>> /\ open = {}
 
 Max(a, b) == IF a > b THEN a ELSE b
 (* an UNSTABLE write: appended, answered at once, promises nothing *)
-Unstable(c) == /\ pc[c] = "idle" /\ len < MaxTxn /\ len' = len + 1 /\ pos' = len + 1
-               /\ UNCHANGED <<durable, pc, my, mark, promised>>
+New == len + 1      \* a fresh request id (the position of its first transaction)
+Unstable(c) == /\ pc[c] = "idle" /\ len < MaxTxn /\ len' = len + 1 /\ pos' = len + 1 /\ owner' = Append(owner, New)
+               /\ UNCHANGED <<durable, pc, my, mark, promised, open>>
 (* a request the journal refuses as too large: nothing appended, the shared position reset *)
-Refused(c) == /\ pc[c] = "idle" /\ pos' = 0 /\ UNCHANGED <<len, durable, pc, my, mark, promised>>
+Refused(c) == /\ pc[c] = "idle" /\ pos' = 0 /\ UNCHANGED <<len, durable, pc, my, mark, promised, owner, open>>
 (* a stable request (FILE_SYNC write, CREATE ...): appends, then waits *)
 StableBegin(c) ==
-  /\ pc[c] = "idle" /\ len < MaxTxn /\ len' = len + 1 /\ pos' = len + 1
+  /\ pc[c] = "idle" /\ StableVariant # "split" /\ len < MaxTxn /\ len' = len + 1 /\ pos' = len + 1 /\ owner' = Append(owner, New)
   /\ pc' = [pc EXCEPT ![c] = "wait"] /\ mark' = [mark EXCEPT ![c] = len + 1]
   /\ my' = [my EXCEPT ![c] = IF StableVariant = "late" THEN 0 ELSE len + 1]     \* "late": Log.Flush() after the locks are gone
-  /\ UNCHANGED <<durable, promised>>
+  /\ UNCHANGED <<durable, promised, open>>
+(* "split": the request is logged in two pieces; the first is committed without waiting, the second as the request asked *)
+SplitFirst(c) ==
+  /\ pc[c] = "idle" /\ StableVariant = "split" /\ len + 1 < MaxTxn /\ len' = len + 1 /\ pos' = len + 1 /\ owner' = Append(owner, New)
+  /\ open' = open \cup {New} /\ pc' = [pc EXCEPT ![c] = "piece"] /\ mark' = [mark EXCEPT ![c] = New]
+  /\ UNCHANGED <<durable, my, promised>>
+SplitSecond(c) ==
+  /\ pc[c] = "piece" /\ len' = len + 1 /\ pos' = len + 1 /\ owner' = Append(owner, mark[c])
+  /\ open' = open \ {mark[c]} /\ pc' = [pc EXCEPT ![c] = "wait"] /\ mark' = [mark EXCEPT ![c] = len + 1]
+  /\ my' = [my EXCEPT ![c] = len + 1] /\ UNCHANGED <<durable, promised>>
 (* COMMIT *)
 CommitBegin(c) ==
   /\ pc[c] = "idle"
   /\ IF CommitVariant = "own"
-     THEN /\ len < MaxTxn /\ len' = len + 1 /\ pos' = len + 1
+     THEN /\ len < MaxTxn /\ len' = len + 1 /\ pos' = len + 1 /\ owner' = Append(owner, New)
           /\ my' = [my EXCEPT ![c] = len + 1] /\ mark' = [mark EXCEPT ![c] = len + 1]
-     ELSE /\ UNCHANGED <<len, pos>> /\ my' = [my EXCEPT ![c] = 0] /\ mark' = [mark EXCEPT ![c] = len]
-  /\ pc' = [pc EXCEPT ![c] = "wait"] /\ UNCHANGED <<durable, promised>>
+     ELSE /\ UNCHANGED <<len, pos, owner>> /\ my' = [my EXCEPT ![c] = 0] /\ mark' = [mark EXCEPT ![c] = len]
+  /\ pc' = [pc EXCEPT ![c] = "wait"] /\ UNCHANGED <<durable, promised, open>>
 (* the wait ends when the durable prefix covers the position waited for; then the request returns *)
 Return(c) ==
   /\ pc[c] = "wait"
   /\ durable >= (IF my[c] = 0 THEN pos ELSE my[c])
   /\ promised' = Max(promised, mark[c])
-  /\ pc' = [pc EXCEPT ![c] = "idle"] /\ UNCHANGED <<len, durable, pos, my, mark>>
+  /\ pc' = [pc EXCEPT ![c] = "idle"] /\ UNCHANGED <<len, durable, pos, my, mark, owner, open>>
 Logger == /\ durable < len /\ \E d \in (durable + 1)..len : durable' = d
-          /\ UNCHANGED <<len, pos, pc, my, mark, promised>>
+          /\ UNCHANGED <<len, pos, pc, my, mark, promised, owner, open>>
 
-Next == (\E c \in Clients : Unstable(c) \/ Refused(c) \/ StableBegin(c) \/ CommitBegin(c) \/ Return(c)) \/ Logger
+Next == (\E c \in Clients : Unstable(c) \/ Refused(c) \/ StableBegin(c) \/ SplitFirst(c) \/ SplitSecond(c) \/ CommitBegin(c) \/ Return(c)) \/ Logger
 Spec == Init /\ [][Next]_vars
 
 Promise == promised <= durable
+Whole == \A i \in 1..durable : owner[i] \notin open /\ \A j \in (durable + 1)..len : owner[j] # owner[i]
 =============================================================================
